@@ -4,7 +4,6 @@ from __future__ import annotations
 import re
 from collections.abc import Iterable, Sequence
 from dataclasses import dataclass
-from re import Pattern
 
 __all__ = ['ListEntry', 'ListTree']
 
@@ -84,12 +83,12 @@ class ListTree:
 
     _wildcards = re.compile(r'([\*\%])')
 
-    __slots__ = ['_delimiter', '_no_delimiter', '_root', '_marked']
+    __slots__ = ['_delimiter', '_delimiter_char', '_root', '_marked']
 
     def __init__(self, delimiter: str) -> None:
         super().__init__()
         self._delimiter = delimiter
-        self._no_delimiter = '[^' + re.escape(delimiter) + ']*?'
+        self._delimiter_char = re.compile('[' + re.escape(delimiter) + ']')
         self._root = _TreeNode('')
         self._marked: dict[str, bool] = {}
 
@@ -191,17 +190,46 @@ class ListTree:
         for entry in self._iter(self._root, ''):
             yield entry
 
-    def _get_pattern(self, query: str) -> tuple[Pattern[str], Pattern[str]]:
-        pattern_parts: list[str] = []
+    def _get_pattern(self, query: str) -> Sequence[str]:
+        pattern: list[str] = []
         for part in self._wildcards.split(query):
+            if part in ('*', '%') and pattern and pattern[-1] in ('*', '%'):
+                # adjacent wildcards are one wildcard
+                if part == '*':
+                    pattern[-1] = part
+            elif part:
+                pattern.append(part)
+        return pattern
+
+    def _matches(self, pattern: Sequence[str], name: str,
+                 ignore_case: bool = False) -> bool:
+        # Goes through the pattern once and keeps every position in the name
+        # at which the parts so far can end. A regular expression made from
+        # the pattern backtracks instead, which for a name that does not
+        # match takes many times longer with each further wildcard.
+        end = len(name)
+        reached = {0}
+        for part in pattern:
             if part == '*':
-                pattern_parts.append('(?s:.*?)')
+                reached = set(range(min(reached), end + 1))
             elif part == '%':
-                pattern_parts.append(self._no_delimiter)
+                after: set[int] = set()
+                for pos in sorted(reached):
+                    if pos not in after:
+                        delimiter = self._delimiter_char.search(name, pos)
+                        stop = delimiter.start() if delimiter else end
+                        after.update(range(pos, stop + 1))
+                reached = after
+            elif ignore_case:
+                literal = re.compile(re.escape(part), re.IGNORECASE)
+                reached = {pos + len(part) for pos in reached
+                           if literal.match(name, pos)}
             else:
-                pattern_parts.append(re.escape(part))
-        pattern = '^' + ''.join(pattern_parts) + r'\Z'
-        return re.compile(pattern), re.compile(pattern, re.IGNORECASE)
+                reached = {pos + len(part) for pos in reached
+                           if name.startswith(part, pos)}
+            if not reached:
+                return False
+        return end in reached
 
     def list_matching(self, ref_name: str, filter_: str) \
             -> Iterable[ListEntry]:
@@ -212,10 +240,10 @@ class ListTree:
             filter_: Mailbox name with possible wildcards.
 
         """
-        canonical, canonical_i = self._get_pattern(ref_name + filter_)
+        pattern = self._get_pattern(ref_name + filter_)
         for entry in self.list():
             if entry.name == 'INBOX':
-                if canonical_i.match('INBOX'):
+                if self._matches(pattern, 'INBOX', ignore_case=True):
                     yield entry
-            elif canonical.match(entry.name):
+            elif self._matches(pattern, entry.name):
                 yield entry
